@@ -2,6 +2,8 @@
 claripy, so claripy's own unknown-to-exception mapping is part of what is tested.
 
 kind "A": return unknown WITHOUT calling the real check.   kind "B": call the real check, then report unknown.
+kind "C": raise z3.Z3Exception instead of answering -- how Z3 reports "reached max unfolding" (sequence / recursive
+function solver), "out of memory" and some cancellations.
 Only calls made while a window is open (an operation of the solver under test is on the stack) are counted / faulted.
 """
 
@@ -10,7 +12,7 @@ from __future__ import annotations
 import z3
 
 REASONS = ("timeout", "max. resource limit exceeded", "canceled")
-KINDS = ("A", "B")
+KINDS = ("A", "B", "C")
 
 
 class _State:
@@ -39,6 +41,8 @@ def _check(self, *args):
         S.faulted_solver = self
         if S.kind == "B":
             S.orig_check(self, *args)
+        if S.kind == "C":
+            raise z3.Z3Exception(b"reached max unfolding" if S.reason == "timeout" else b"out of memory" if S.reason.startswith("max.") else b"canceled")
         return z3.unknown
     return S.orig_check(self, *args)
 
